@@ -98,8 +98,13 @@ fn err_count(ctx: &Context) -> usize {
     ctx.variables.get("__err_count").and_then(|v| v.parse().ok()).unwrap_or(0)
 }
 
-fn script_step(ctx: Context, op: &str) -> Result<(Context, String), String> {
+fn script_step(mut ctx: Context, op: &str) -> Result<(Context, String), String> {
     let t: Vec<&str> = op.split(' ').collect();
+    if t[0] == "h" {
+        // the HOST registers a command (Commands::set) between two script steps
+        let r = step(&mut ctx.commands, &format!("s {}", t[1..].join(" ")));
+        return Ok((ctx, r));
+    }
     let args: Vec<String> = t[1..].iter().map(|x| dec_str(x)).collect();
     let a = args.join(" ");
     let script = match t[0] {
